@@ -33,6 +33,8 @@ deriving DecidableEq, Repr, BEq
     non-null previous outputs (a coinbase has none). -/
 structure Tx where
   txid : Nat
+  /-- normalised txid (`compute_ntxid`), used by the duplicate check of block validation -/
+  ntxid : Nat := 0
   coinbase : Bool
   vsize : Nat
   ins : List OutPoint
@@ -49,6 +51,8 @@ structure Block where
   bits : Nat
   header : String
   txs : List Tx
+  /-- `check_merkle_root()` of the underlying block (library function, given) -/
+  merkleOk : Bool := true
 deriving DecidableEq, Repr, BEq
 
 /-- An unspent output as reported by `get_utxos` (`types::Utxo`). -/
